@@ -103,6 +103,47 @@ func verifyFunction(P *Program, S *Specs, fn *ssa.Function, ct *Contract, prop s
 		}
 	}
 	fr.run("true", entry)
+	// ghost assignments at returns
+	if ct != nil && len(ct.Ghosts) > 0 {
+		for i := range fr.returns {
+			r := &fr.returns[i]
+			nm := r.mem.clone()
+			for _, g := range ct.Ghosts {
+				ec := fr.evalCtx(r.mem, entry)
+				names := map[string]Val{}
+				bindResultNames(names, fn.Signature, r.results)
+				ec.names = names
+				an, md := ex.modelArray(g.Model)
+				if md == nil {
+					ex.failOb("contract-typechecks", "ghost", "unknown model field "+g.Model, fn.Pos())
+					continue
+				}
+				v, err := func() (v Val, err error) {
+					defer func() {
+						if rr := recover(); rr != nil {
+							if e, ok := rr.(evalErr); ok {
+								err = fmt.Errorf("%s", string(e))
+								return
+							}
+							panic(rr)
+						}
+					}()
+					return ec.coerce(ec.eval(g.Val.E), md.Ret), nil
+				}()
+				if err != nil {
+					ex.failOb("contract-typechecks", "ghost", err.Error()+" in ghost "+g.Val.Src, fn.Pos())
+					continue
+				}
+				if g.Arg == nil {
+					ex.memSet(nm, an, v.T)
+				} else {
+					row := ec.argFor(ec.eval(g.Arg), md.Params[0])
+					ex.memSet(nm, an, fmt.Sprintf("(store %s %s %s)", ex.memGet(nm, an), row.T, v.T))
+				}
+			}
+			r.mem = nm
+		}
+	}
 	// postconditions
 	if ct != nil {
 		for i, en := range ct.Ensures {
@@ -163,7 +204,7 @@ func (fr *Frame) frameObligation(entry *MemState) {
 	ex := fr.ex
 	names := map[string]bool{}
 	for _, r := range fr.returns {
-		if r.mem.ep != entry.ep {
+		if r.mem.lost || r.mem.memLost {
 			ex.oblige("frame", "readonly", "false", r.reach, "readonly function calls something with unknown frame", fr.fn.Pos(), nil)
 			return
 		}
@@ -209,13 +250,19 @@ func (fr *Frame) assignsObligation(entry *MemState, ct *Contract) {
 		if a.All {
 			return
 		}
-		if a.Model != "" {
+		if a.Model == "allrows" {
+			for _, mn := range sortedKeys(ex.S.Models) {
+				if md := ex.S.Models[mn]; len(md.Params) > 0 && md.Params[0].Obj {
+					listed["F_"+mn] = append(listed["F_"+mn], AssignTarget{Model: mn, Arg: a.Arg})
+				}
+			}
+		} else if a.Model != "" {
 			listed["F_"+a.Model] = append(listed["F_"+a.Model], a)
 		}
 	}
 	names := map[string]bool{}
 	for _, r := range fr.returns {
-		if r.mem.ep != entry.ep {
+		if r.mem.lost {
 			ex.oblige("frame", "assigns", "false", r.reach, "function with an assigns clause calls something with unknown frame", fr.fn.Pos(), nil)
 			return
 		}
@@ -248,16 +295,28 @@ func (fr *Frame) assignsObligation(entry *MemState, ct *Contract) {
 				continue
 			}
 			md := ex.S.Models[strings.TrimPrefix(k, "F_")]
-			if len(tg) == 0 || len(md.Params) == 0 {
+			if len(md.Params) == 0 {
 				parts = append(parts, implies(r.reach, fmt.Sprintf("(= %s %s)", a, b)))
+				continue
+			}
+			if len(tg) == 0 {
+				// rows of objects that existed at entry are unchanged (rows of objects created inside may differ)
+				if md.Params[0].S == SInt {
+					parts = append(parts, implies(r.reach, fmt.Sprintf("(forall ((x Int)) (=> (<= (root x) allocbase) (= (select %s x) (select %s x))))", a, b)))
+				} else {
+					parts = append(parts, implies(r.reach, fmt.Sprintf("(= %s %s)", a, b)))
+				}
 				continue
 			}
 			// rows other than the listed ones unchanged
 			ec := fr.evalCtx(entry, entry)
 			var ne []string
 			for _, t := range tg {
-				row := ec.coerce(ec.eval(t.Arg), md.Params[0].S)
+				row := ec.argFor(ec.eval(t.Arg), md.Params[0])
 				ne = append(ne, fmt.Sprintf("(not (= x %s))", row.T))
+			}
+			if md.Params[0].S == SInt {
+				ne = append(ne, "(<= (root x) allocbase)")
 			}
 			parts = append(parts, implies(r.reach, fmt.Sprintf("(forall ((x %s)) (=> %s (= (select %s x) (select %s x))))", md.Params[0].S, and(ne...), a, b)))
 		}
